@@ -118,6 +118,9 @@ def _(c):
         c.scenario(f"{a} + {b2}", pre)
     c.ensures("counts(result) == {k: counts(self).get(k, 0) + counts(other).get(k, 0) for k in list(counts(self).keys()) + [k for k in counts(other).keys() if k not in counts(self)]}", "counts-add")
     c.ensures("counts(self) == old(counts(self)) and counts(other) == old(counts(other))", "operands-unchanged")
+    # the sum owns its species: a later add() / * on the sum or on an operand acts on that object's counts only
+    c.fresh("list(result.components.values())", "sum-shares-no-species-object-with-an-operand", each=True)
+    c.modifies()
     c.no_raise()
 
 
@@ -137,6 +140,9 @@ def _(c):
 MIXES = [["H2O", "NaCl"], ["H2O"], ["N2", "O2", "Ar"], ["H2O", "CO2", "NaCl", "Fe2O3"], ["O{17}H2", "D2O"]]
 if TIER != "thorough":
     MIXES = MIXES[:3]
+
+
+STRING_MIXES = [(["H2O", "NaCl"], ["0.2", "0.8"]), (["N2", "O2", "Ar"], ["78.084", "20.946", "0.934"])]
 
 
 @spec
@@ -183,12 +189,21 @@ for mode, label in (("NUMBER_FRACTION", "number"), ("MASS_FRACTION", "mass")):
         c.chunk = 1
         c.assume_nonzero_divisors = True
         for mix in MIXES:
-            def pre(b, mix=mix):
-                ps = [b.real(f"p{i}") for i in range(len(mix))]
-                norm = b.getattr(b.cls(NORM), mode)
-                m = b.new(MAT, b.dict({s: p for s, p in zip(mix, ps)}), norm_type=norm)
-                return dict(args=[m], kwargs=dict(quantity=False), env=dict(ps=ps, ms=[_mass(s) for s in mix], keys=list(mix)))
-            c.scenario("+".join(mix), pre)
+            for nat in (True, False):
+                def pre(b, mix=mix, nat=nat):
+                    ps = [b.real(f"p{i}") for i in range(len(mix))]
+                    norm = b.getattr(b.cls(NORM), mode)
+                    m = b.new(MAT, b.dict({s: p for s, p in zip(mix, ps)}), natural=nat, norm_type=norm)
+                    return dict(args=[m], kwargs=dict(quantity=False), env=dict(ps=ps, ms=[_mass(s, nat) for s in mix], keys=list(mix)))
+                c.scenario("+".join(mix) + ("" if nat else "[most-abundant-isotopes]"), pre)
+        # the same mixtures written as an expression '<p> <substance> ...' (each blank is a '+' of materials): literal proportions
+        for mix, lit in STRING_MIXES:
+            for nat in (True, False):
+                def pre_s(b, mix=mix, lit=lit, nat=nat):
+                    norm = b.getattr(b.cls(NORM), mode)
+                    m = b.new(MAT, " ".join(f"{p} <{s}>" for s, p in zip(mix, lit)), natural=nat, norm_type=norm)
+                    return dict(args=[m], kwargs=dict(quantity=False), env=dict(ps=[float(p) for p in lit], ms=[_mass(s, nat) for s in mix], keys=list(mix)))
+                c.scenario("text:" + "+".join(mix) + ("" if nat else "[most-abundant-isotopes]"), pre_s)
         c.requires("all([p > 0 for p in ps])")
         if mode == "NUMBER_FRACTION":
             c.ensures("all([near(frac(result, k, 'x'), 100 * p / sum(ps)) for k, p in zip(keys, ps)])", "x-proportional-to-the-amount")
@@ -197,6 +212,25 @@ for mode, label in (("NUMBER_FRACTION", "number"), ("MASS_FRACTION", "mass")):
             c.ensures("all([near(frac(result, k, 'X'), 100 * p / sum(ps)) for k, p in zip(keys, ps)])", "X-proportional-to-the-given-mass-fraction")
             c.ensures("all([near(frac(result, k, 'x'), 100 * (p / m) / sum([q / w for q, w in zip(ps, ms)])) for k, p, m in zip(keys, ps, ms)])", "x-proportional-to-mass-fraction-over-mass")
         c.ensures("near(frac(result, 'sum', 'x'), 100) and near(frac(result, 'sum', 'X'), 100)", "fractions-sum-to-100-percent")
+        c.no_raise()
+
+
+for opname in ("__add__", "__rmul__"):
+    @contract(f"{MAT}.{opname}", ["C11"], name=f"Material.{opname}")
+    def _(c, opname=opname):
+        c.bound = "two-substance materials in both normalisation modes, natural and most-abundant isotopes"
+        for mode in ("NUMBER_FRACTION", "MASS_FRACTION"):
+            for nat in (True, False):
+                def pre(b, mode=mode, nat=nat, opname=opname):
+                    norm = b.getattr(b.cls(NORM), mode)
+                    p0, p1 = b.real("p0"), b.real("p1")
+                    m1 = b.new(MAT, b.dict({"H2O": p0}), natural=nat, norm_type=norm)
+                    m2 = b.new(MAT, b.dict({"NaCl": p1}), natural=nat, norm_type=norm) if opname == "__add__" else p1
+                    return dict(args=[m1, m2], env=dict(nat=nat, p0=p0, p1=p1, ms=[_mass("H2O", nat), _mass("NaCl", nat)]))
+                c.scenario(f"{mode}[{'natural' if nat else 'most-abundant-isotopes'}]", pre)
+        c.requires("p0 > 0 and p1 > 0")
+        c.ensures("result.natural == self.natural and result.norm_type == self.norm_type", "isotope-mode-and-normalisation-carried-over")
+        c.ensures("all([near(comp.component_mass.value('Da'), m) for comp, m in zip(result.components.values(), ms)])", "component-masses-in-the-same-isotope-mode")
         c.no_raise()
 
 
